@@ -506,7 +506,8 @@ func (a Float) M__round__(digitsObj Object) (Object, error) {
 		ndigitsMin = -308
 	)
 	var digits Int
-	if d, ok := digitsObj.(*BigInt); ok {
+	if d, ok := digitsObj.(*BigInt); ok && !(*big.Int)(d).IsInt64() {
+		// too big for an Int: beyond the limits either way
 		digits = Int((*big.Int)(d).Sign()) * (ndigitsMax + 1)
 	} else {
 		var err error
